@@ -17,7 +17,7 @@ import (
 func init() {
 	register(&Property{
 		ID: "C12", Level: "exploration", Builds: []string{"race"},
-		Rule:        "race-detector build (-race, checkptr off) with the trace hooks on: every parallel entry point (ParOr, ParAnd, ParHeapOr, roaring64.ParOr) x list shapes {zero work items, one item, fewer items than workers, > 160 items so that inputChan/resultChan fill, one vs many containers per key, ParAnd without a common key, top of the key space} x workers {0,1,2,3,8,33,64} x GOMAXPROCS {1,2,4,16} x perturbation seeds: at every protocol event (spec/chunk/input/result/expected/answer sent or received, channels closed) the hook records (event,id) and yields or sleeps 0-200us chosen by a seeded PRNG, while 2 background goroutines spin on Gosched; each call is repeated. Detectors: (1) WARNING: DATA RACE reports with library frames on both sides (parsed by the parent); (2) result != sequential fold, or two runs differ; (3) a call that does not return within 120 s AND whose goroutines are all parked on channel operations in two dumps 5 s apart = deadlock (anything else = inconclusive); (4) goroutines with a parallel-aggregation frame still alive 10 s after return = leak; (5) input raw-storage hash changed; (6) 32 goroutines decoding their own streams through the shared reader pools must each get their own set; (7) the goroutine-parallel paths of both bit-sliced indexes (ClearValues, ParOr, NewBSIRetainSet, Sum, the parallel executors behind CompareValue / MinMax / Transpose / BatchEqual, worker counts 0..16) run the C19 update histories and the C20 query batteries under the race detector with their model oracles. Non-trivial: a call with >= 2 non-empty inputs; distinct = hash(inputs, workers, GOMAXPROCS, perturbation seed); evidence lists distinct event orders observed.",
+		Rule:        "race-detector build (-race, checkptr off) with the trace hooks on: every parallel entry point (ParOr, ParAnd, ParHeapOr, roaring64.ParOr) x list shapes {zero work items, one item, fewer items than workers, > 160 items so that inputChan/resultChan fill, one vs many containers per key, ParAnd without a common key, top of the key space} x workers {0,1,2,3,8,33,64} x GOMAXPROCS {1,2,4,16} x perturbation seeds: at every protocol event (spec/chunk/input/result/expected/answer sent or received, channels closed) the hook records (event,id) and yields or sleeps 0-200us chosen by a seeded PRNG, while 2 background goroutines spin on Gosched; each call is repeated. Detectors: (1) WARNING: DATA RACE reports with library frames on both sides (parsed by the parent); (2) result != sequential fold, or two runs differ; (3) a call that does not return within 120 s AND whose goroutines are all parked on channel operations in two dumps 5 s apart = deadlock (anything else = inconclusive); (4) goroutines with a parallel-aggregation frame still alive 10 s after return = leak; (5) input raw-storage hash changed; (6) 32 goroutines decoding their own streams through the shared reader pools must each get their own set; (7) the goroutine-parallel paths of both bit-sliced indexes (ClearValues, ParOr, NewBSIRetainSet, Sum, the parallel executors behind CompareValue / MinMax / Transpose / BatchEqual, worker counts 0..16) run the C19 update histories and the C20 query batteries under the race detector with their model oracles. Non-trivial: a call with >= 2 non-empty inputs; distinct = hash(inputs, workers, GOMAXPROCS, perturbation seed); evidence lists distinct event orders observed. The pool stress interleaves failing decodes (proper prefixes) with valid ones on every goroutine. The BSI units run inside a wrapper with a GOMAXPROCS draw per case, a blocked-forever watchdog over goroutines inside bsi.go / bsi64.go and a goroutine-leak poll.",
 		Assumptions: []string{"the race detector sees only executed accesses and the synchronisation it understands (channels, sync, atomic: all that the library uses)", "a finite set of schedules is explored; the claim is 'no race / deadlock / leak on the schedules produced'"},
 		Units: []Unit{
 			{Name: "parallel-aggregates@race", Quick: 420, Thorough: 20000, Run: c12Par},
